@@ -172,6 +172,14 @@ func mutations(valid []byte, wireBody []byte, thorough bool) []mutation {
 			mutation{Class: "proto-json-body", Body: valid, CT: ct}, mutation{Class: "proto-group-end", Body: []byte{0x0c}, CT: ct}, mutation{Class: "proto-field-zero", Body: []byte{0x00, 0x00}, CT: ct})
 	}
 	out = append(out, mutation{Class: "json-as-text-plain", Body: valid, CT: "text/plain"}, mutation{Class: "json-no-content-type", Body: valid}, mutation{Class: "wire-as-json", Body: wireBody, CT: j})
+	// Content-Type values that are not a well-formed media type (no slash, only a slash, several slashes,
+	// wildcards, stray parameters, very long), with a valid, a truncated and a non-JSON body
+	for _, oc := range []struct{ label, ct string }{{"no-slash-json", "json"}, {"no-slash-protobuf", "protobuf"}, {"star", "*"}, {"star-slash-star", "*/*"}, {"only-slash", "/"}, {"empty-subtype", "application/"},
+		{"empty-type", "/json"}, {"three-parts", "application/json/extra"}, {"params-only", ";charset=utf-8"}, {"semicolon-first", "; application/json"}, {"space-inside", "application /json"},
+		{"upper-case", "APPLICATION/JSON"}, {"proto-subtype", "application/protobuf"}, {"vendor-proto", "application/vnd.google.protobuf"}, {"long", "application/" + strings.Repeat("x", 5000)}, {"comma-list", "application/json, text/plain"}} {
+		out = append(out, mutation{Class: "ct=" + oc.label + "/valid-json", Body: valid, CT: oc.ct}, mutation{Class: "ct=" + oc.label + "/truncated-json", Body: valid[:len(valid)/2], CT: oc.ct},
+			mutation{Class: "ct=" + oc.label + "/not-json", Body: []byte("name=x&y=1"), CT: oc.ct}, mutation{Class: "ct=" + oc.label + "/wire", Body: wireBody, CT: oc.ct})
+	}
 	out = append(out, mutation{Class: "valid", Body: valid, CT: j})
 	// the same bodies from a peer that streams them (no Content-Length): the server must read and
 	// decode them all the same
